@@ -41,6 +41,13 @@ var keyKindsB = []keyKindB{
 	{"iface", "interface{}", "switch ki % 5 {\n\tcase 0:\n\t\treturn int64(ki) * 31\n\tcase 1:\n\t\treturn strKey(\"e\", ki)\n\tcase 2:\n\t\tswitch ki {\n\t\tcase 2:\n\t\t\treturn f64Of(2)\n\t\tcase 7:\n\t\t\treturn float64(0)\n\t\tcase 12:\n\t\t\treturn f64Of(1)\n\t\t}\n\t\treturn float64(ki) + 0.25\n\tcase 3:\n\t\treturn [2]int32{int32(ki), int32(-ki)}\n\t}\n\treturn &cells[ki%4096]"},
 	{"big", "[20]int64", "var k [20]int64\n\tk[0], k[19] = int64(ki), int64(-ki)\n\treturn k"},
 	{"ptr", "*int64", "return &cells[ki%4096]"},
+	{"padded", "struct {\n\tA int8\n\tB int64\n\tC int16\n}", "var k K_padded\n\tk.A, k.B, k.C = int8(ki), int64(ki)*77, int16(ki>>2)\n\treturn k"},
+	{"strarr", "[2]string", "return [2]string{strKey(\"a\", ki), strKey(\"b\", ki/2)}"},
+	{"nested", "struct {\n\tP struct {\n\t\tX float32\n\t\tY int8\n\t}\n\tS string\n\tI interface{}\n}", "var k K_nested\n\tk.P.X, k.P.Y, k.S = float32(ki)/4, int8(ki), strKey(\"n\", ki%5)\n\tif ki%3 == 0 {\n\t\tk.I = int16(ki)\n\t} else if ki%3 == 1 {\n\t\tk.I = strKey(\"i\", ki)\n\t}\n\treturn k"},
+	{"bool", "bool", "return ki%2 == 1"},
+	{"uint16", "uint16", "return uint16(ki * 257)"},
+	{"chanint", "chan int", "return chans[ki%4096]"},
+	{"named", "myInt", "return myInt(ki) - 600"},
 	{"k128", "[16]int64", "var k [16]int64\n\tk[0], k[15] = int64(ki), int64(-ki)\n\treturn k"}, // exactly the inline limit
 }
 
@@ -79,6 +86,15 @@ import "unsafe"
 
 //go:linkname getchar C.getchar
 func getchar() int32
+
+type myInt int32
+
+var chans = func() (c [4096]chan int) {
+	for i := range c {
+		c[i] = make(chan int)
+	}
+	return
+}()
 
 var (
 	eof      bool
